@@ -171,7 +171,7 @@ class Bits(object):
         "extract bit integer value (0 or 1) at index i."
         if 0 <= i < self.__sz:
             return (self.ival>>i)&0x1
-        elif 0<= -i <= self.__sz:
+        elif 0< -i <= self.__sz:
             return (self.ival>>(self.__sz+i))&0x1
         else:
             raise IndexError
